@@ -178,6 +178,11 @@ def run(ctx, prog):
         r_ = flow.render(mo_.of_local(0))
         ctx.inst('C15.R2', mp_.short, 'map_doc_id hands the range refusal to the caller (INVALID_ARGUMENT)', bool(tgc) and ('to_global_doc_id' in r_) and use_ in ('propagated', 'returned', 'continues'),
                  'to_global_doc_id result is %s; map_doc_id returns %s' % (use_, r_[:120]))
+    # sibling limits: the server's inline checks on the bulk paths and the validator module state the same limits
+    nc15 = prog.named_constants()
+    for nm in ('MAX_EMBEDDING_DIM', 'MIN_DOC_ID'):
+        a_, b_ = nc15.get('kyrodb_engine::api_validation::' + nm), nc15.get('kyrodb_server::' + nm)
+        ctx.inst('C15.R2', 'constants', 'server and validator agree on %s' % nm, a_ is not None and a_ == b_, 'api_validation::%s = %s, kyrodb_server::%s = %s' % (nm, a_, nm, b_))
     # ------------------------------------------------------------------ R3
     ctx.rule('C15.R3', 'search validation: validate_search_request refuses empty, over-long and non-finite queries, k = 0, k > MAX_KNN_K and '
                        'ef_search > 10000; both search executors call it and reach the engine only past its success; nothing else in the binary '
